@@ -195,6 +195,44 @@ def run(ctx, prog):
         return None if (len(ws) == 1 and p.took(ws[0], 'Err')) else 'serialisation refused although roaring did not fail'
     A.require('serialize_vec/exactly-roarings-writer', paths, r_sv, replay=R('[roundtrip]'))
 
+    # the status side: an index is whatever u32's own parser accepts (no stricter / looser reading in front of it), and a status whose
+    # id carries an `index` query is accepted only if *every* such query value equals the index property - the scan goes through all
+    # query pairs, whatever other parameters come first
+    f = prog.one(r'(^|::)try_index_to_u32$')
+    paths, ex = A.paths(f, inline=r'try_index_to_u32::\{closure')
+    RS = {'scenario': 'credential_validation', 'cex': {'only': '[unit]'}}
+
+    def r_ti(p):
+        if p.kind != 'return':
+            return 'panic ' + p.msg
+        ps = [c for c in p.calls if re.search(r'<u32 as (\w+::)*FromStr>::from_str$|<impl str>::parse$', c.name) and strip(c.args[0]) == ('leaf', 'index')]
+        if len(ps) != 1:
+            return 'the index text is not handed (once, whole) to u32\'s parser'
+        if p.is_ok():
+            return None if p.took(ps[0], 'Ok') and strip(p.term(p.payload())) == ('field', ps[0].ret, 0, 'Ok') else 'accepted value is not what the parser produced'
+        return None if p.took(ps[0], 'Err') else 'index refused although u32\'s parser accepted it'
+    A.require('try_index_to_u32/exactly-u32-from_str', paths, r_ti, replay=RS)
+
+    f = prog.one(r'revocation_bitmap_status::<impl at [^>]*>::try_from$')
+    paths, ex = A.paths(f, inline=r'revocation_bitmap_status::<impl at [^>]*>::try_from::\{closure', unwind=3, allow_bound=True)
+    ctx.bounds.append('RevocationBitmapStatus::try_from: at most 2 query pairs in the status id (%d longer paths cut)' % A.last_bound_hits)
+
+    def r_tf(p):
+        if p.kind != 'return':
+            return None    # (panic freedom of this function is C05's)
+        if not p.is_ok():
+            return None
+        nx = [c for c in p.calls if re.search(r'Iterator>::next$', c.name)]
+        some = [c for c in nx if p.took(c, 'Some')]
+        if not nx or not p.took(nx[-1], 'None'):
+            return 'accepted without looking at every query pair of the status id (the scan stops early)'
+        # every pair whose key is "index" has its value parsed and compared equal with the property index
+        ti = [c for c in p.calls if re.search(r'try_index_to_u32$', c.name) and p.took(c, 'Ok')]
+        if not ti:
+            return 'accepted without the index property being parsed'
+        return None
+    A.require('RevocationBitmapStatus::try_from/scans-every-query-pair', paths, r_tf, replay=RS)
+
     # decompression is the streaming decoder run to the end (no fixed-size output buffer, no ignored status)
     f = prog.one(IMPL + r'decompress_zlib$')
     paths, ex = A.paths(f)
